@@ -158,6 +158,13 @@ func genSize() *rapid.Generator[int] {
 		rapid.IntRange(-2, 3),
 		rapid.IntRange(0, 300),
 		rapid.SampledFrom([]int{31, 32, 33, 63, 64, 65, 127, 128, 129, 255, 256, 257, 511, 512, 513, 1023, 1024, 1025, 2047, 2048, 2049, 4096, 5000}),
+		// the volumes a long-lived buffer sees (rare: drawn from an interior value of the selector)
+		rapid.Custom(func(t *rapid.T) int {
+			if rapid.IntRange(0, 11).Draw(t, "volume") != 5 {
+				return rapid.IntRange(0, 300).Draw(t, "small")
+			}
+			return rapid.SampledFrom([]int{65535, 65536, 65537, 70000, 131072, 200000}).Draw(t, "large")
+		}),
 	)
 }
 
@@ -231,6 +238,12 @@ func genOp() *rapid.Generator[op] {
 			o.Delim = rapid.SampledFrom([]byte{'\n', 'a', ' ', 0x80, 0, '9'}).Draw(t, "delim")
 		case "ReadFrom":
 			k := rapid.IntRange(0, 4).Draw(t, "chunks")
+			if rapid.IntRange(0, 19).Draw(t, "idleReader") == 7 {
+				// a reader that is idle for a long while (0, nil) before it delivers
+				for i := rapid.SampledFrom([]int{99, 100, 101, 150, 1000}).Draw(t, "idleReads"); i > 0; i-- {
+					o.Script = append(o.Script, chunk{N: 0})
+				}
+			}
 			for i := 0; i < k; i++ {
 				c := chunk{
 					N:    rapid.OneOf(rapid.IntRange(0, 40), rapid.SampledFrom([]int{0, 1, 511, 512, 513, 2000})).Draw(t, "cn"),
@@ -399,6 +412,14 @@ func start(t *rapid.T) (bufAPI, bufAPI, string) {
 func checkSequence(t *rapid.T, test string) {
 	pc, ref, startKind := start(t)
 	ops := rapid.SliceOfN(genOp(), 1, 40).Draw(t, "ops")
+	if rapid.IntRange(0, 9).Draw(t, "bigVolumeTemplate") == 4 {
+		// a buffer that has had much data through it: a big write, a big read of some kind, then an unread
+		w := op{Kind: "Write", Data: bytes.Repeat([]byte("0123456789abcdef"), rapid.SampledFrom([]int{4096, 8192, 12500}).Draw(t, "bigWrite"))}
+		r := op{Kind: rapid.SampledFrom([]string{"Read", "Read", "Next"}).Draw(t, "bigReadKind"), N: rapid.SampledFrom([]int{65535, 65536, 65537, 100000, 131072}).Draw(t, "bigRead")}
+		u := op{Kind: rapid.SampledFrom([]string{"UnreadByte", "UnreadRune", "ReadByte"}).Draw(t, "afterBigRead")}
+		at := rapid.IntRange(0, len(ops)).Draw(t, "templateAt")
+		ops = append(ops[:at:at], append([]op{w, r, u}, ops[at:]...)...)
+	}
 
 	var desc []string
 	type kept struct {
